@@ -230,6 +230,11 @@ Destroy(u) ==
             inv |-> D] @@ Obs(loc'))
      /\ UNCHANGED created
 
+\* observation only (used by the simulation wrappers so that a step is always possible)
+Peek == /\ InTx /\ "peek" \in Forms
+        /\ Ok([op |-> "peek", inv |-> {}] @@ Obs(loc))
+        /\ UNCHANGED <<loc, created, destroyed, evs>>
+
 \* a move onto an occupied place must abort the transaction (nothing is overwritten, nothing is lost)
 BadMove(u, dst) ==
   /\ InTx /\ "bad" \in Forms
@@ -242,7 +247,7 @@ BadMove(u, dst) ==
      /\ AbortTx([op |-> "badmove", u |-> u, sp |-> Path(loc, loc[u]), dp |-> Path(l1, dst),
                  res |-> IF dst.k = "store" THEN "err:overwrite" ELSE "err:loss"])
 
-Next == \/ Begin \/ Commit \/ Abort
+Next == \/ Begin \/ Commit \/ Abort \/ Peek
         \/ \E dst \in Places : Create(dst)
         \/ \E u \in Ids, dst \in Places, fn \in BOOLEAN : Move(u, dst, fn)
         \/ \E i, j \in Slots : Swap(i, j)
